@@ -1,5 +1,5 @@
 (* C04 - Concurrent requests behave as if processed one at a time. *)
-From Chihaya Require Import Model.History Model.Conc Proofs.MemP Proofs.RedisP Proofs.ConcP.
+From Chihaya Require Import Model.History Model.Conc Model.Locks Model.MemLocks Proofs.MemP Proofs.RedisP Proofs.ConcP Proofs.LocksP Proofs.MemLocksP.
 Open Scope Z_scope.
 
 (* ---- memory store *)
@@ -7,6 +7,89 @@ Open Scope Z_scope.
 Theorem C04_mem_pass_is_per_swarm_steps : forall T sh, swarms (shard_gc T sh) = sm_gc T (swarms sh).
 Proof. exact shard_gc_swarms. Qed.
 Print Assumptions C04_mem_pass_is_per_swarm_steps.
+
+(* ---- memory store, the lock protocol (Model/Locks.v: threads of acquire / read / commit / release actions
+   over shards guarded by one RWMutex each; an acquire is disabled while an incompatible holder exists).
+   "well-locked" (held_after None p = Some None): every access to a shard lies between an acquire and the
+   matching release of that shard's lock, the shard is read before it is used, writes need the write lock. *)
+
+(* mutual exclusion: in EVERY state of EVERY schedule, two different threads hold the same shard's lock
+   only if both hold it for reading (both semantics; generic in the shard and result types) *)
+Theorem C04_mem_mutual_exclusion : forall (S R : Type) atomic (ss : list S) (progs : list (list (mact S R))) sched,
+  Forall (fun p => held_after None p = Some None) progs ->
+  let m := run (msem atomic) sched (msh_init ss, map mthread_of progs) in
+  forall i k t tk j w w', i <> k -> m.2 !! i = Some t -> m.2 !! k = Some tk ->
+    holds j w t = true -> holds j w' tk = true -> w = false /\ w' = false.
+Proof. exact @mem_mutual_exclusion. Qed.
+Print Assumptions C04_mem_mutual_exclusion.
+
+(* atomicity of the lock-delimited step: reading the shard, computing on the snapshot and writing it back
+   inside the critical section (msem false) produces, under EVERY schedule, exactly the run - final shards,
+   lock table, thread states with their results, event trace - of the reference semantics in which the
+   whole step happens at the instant of the commit (msem true) *)
+Theorem C04_mem_fine_refines_atomic : forall (S R : Type) (ss : list S) (progs : list (list (mact S R))) sched,
+  Forall (fun p => held_after None p = Some None) progs ->
+  let m0 := (msh_init ss, map mthread_of progs) in
+  run (msem false) sched m0 = run (msem true) sched m0 /\ trace (msem false) sched m0 = trace (msem true) sched m0.
+Proof. exact @fine_refines_atomic. Qed.
+Print Assumptions C04_mem_fine_refines_atomic.
+
+(* linearizability of the steps: the shards reached are those of applying the committed steps ONE AT A TIME
+   in commit order, and every thread's results are the results of its own steps in that sequential
+   execution.  A commit lies between its thread's acquire and release, so the order is consistent with the
+   real-time order of the steps. *)
+Theorem C04_mem_steps_linearizable : forall (S R : Type) (ss : list S) (progs : list (list (mact S R))) sched,
+  Forall (fun p => held_after None p = Some None) progs ->
+  let m0 := (msh_init ss, map mthread_of progs) in
+  let final := run (msem false) sched m0 in
+  let x := seq_apply (commits (trace (msem false) sched m0)) ss in
+  shards final.1 = x.1 /\ forall i t, final.2 !! i = Some t -> results (loc t) = results_of i x.2.
+Proof. exact @fine_linearizable. Qed.
+Print Assumptions C04_mem_steps_linearizable.
+
+(* the store's own programs (request threads = lists of store steps: an announce is count read, selection,
+   update; expiry passes = per shard a read section that snapshots the infohashes, then one write step per
+   infohash) are well-locked, so all of the above applies to them: *)
+Theorem C04_mem_store_mutual_exclusion : forall n (st : mstore) (ps : list mprog) sched,
+  let m := run (msem false) sched (msh_init st, map mthread_of (map (mprog_acts n) ps)) in
+  forall i k t tk j w w', i <> k -> m.2 !! i = Some t -> m.2 !! k = Some tk ->
+    holds j w t = true -> holds j w' tk = true -> w = false /\ w' = false.
+Proof. exact mem_store_mutual_exclusion. Qed.
+Print Assumptions C04_mem_store_mutual_exclusion.
+
+Theorem C04_mem_store_linearizable : forall n (st : mstore) (ps : list mprog) sched,
+  let m0 := (msh_init st, map mthread_of (map (mprog_acts n) ps)) in
+  let final := run (msem false) sched m0 in
+  let x := seq_apply (commits (trace (msem false) sched m0)) st in
+  shards final.1 = x.1 /\ forall i t, final.2 !! i = Some t -> results (loc t) = results_of i x.2.
+Proof. exact mem_store_linearizable. Qed.
+Print Assumptions C04_mem_store_linearizable.
+
+(* request threads: the one-at-a-time execution is literally the sequential model of Model/MemStore.v
+   (the model the histories of C01 / C02 / C17 are checked against) *)
+Theorem C04_mem_requests_linearizable : forall n (st : mstore) (oss : list (list cop)) sched,
+  (0 < n)%nat -> length st = (2 * n)%nat ->
+  let m0 := (msh_init st, map mthread_of (map (cops_prog n) oss)) in
+  let final := run (msem false) sched m0 in
+  exists los : list (nat * cop),
+    shards final.1 = (cops_run n los st).1 /\
+    forall i t, final.2 !! i = Some t -> results (loc t) = results_of i (cops_run n los st).2.
+Proof. exact mem_requests_linearizable. Qed.
+Print Assumptions C04_mem_requests_linearizable.
+
+(* the machine runs (non-vacuity): an announce, an expiry pass and a delete interleaved on one swarm; the
+   pass's step blocks on the lock, then finds the swarm changed since its snapshot *)
+Theorem C04_mem_conc_example :
+  let m0 := (msh_init ml_st0, map mthread_of (map (mprog_acts 1) ml_progs)) in
+  let final := run (msem false) ml_sched m0 in
+  finishedb final = true /\
+  map (fun t => results (loc t)) final.2 = [[RCounts 1 0; RMembers None; RUnit]; [RUnit]; [RBool true]] /\
+  map (fun sh => (map (fun kv : list Z * swarm => (kv.1, map_to_list (seeders kv.2), map_to_list (leechers kv.2))) (map_to_list (swarms sh)),
+              numS sh, numL sh)) (shards final.1) =
+    [([(ml_ih, [], [([2], 100)])], 0, 1); ([], 0, 0)] /\
+  locks final.1 = [lock_free; lock_free].
+Proof. exact mem_conc_example. Qed.
+Print Assumptions C04_mem_conc_example.
 
 (* ---- Redis store, round-trip granularity.  EVERY schedule of announce-type threads (possibly in the
    middle of their scripts): the hashes are those of the sequential run of the operations in the order
